@@ -90,6 +90,8 @@ def c_op(op):
         return f"(ODeliver {cstr(op[1])} {cz(op[2])} {cbool(op[3])} {cz(op[4])} {cz(op[5])})"
     if k == "poll":
         return "OPoll"
+    if k == "restart":
+        return "ORestart"
     if k == "mkbox":
         return f"(OMkbox {cstr(op[1])})"
     raise ValueError(op)
@@ -251,6 +253,11 @@ def run_op(w: W.World, op):
         w.bump_mtime(m)
     elif k == "poll":
         w.settle(25)
+    elif k == "restart":
+        names = list(w.sessions)
+        w.restart()
+        for nm in names:
+            w.session(nm)
     elif k == "select":
         w.cmd(s, f"t {'EXAMINE' if op[3] else 'SELECT'} {op[2]}")
     elif k in ("unselect", "close", "noop", "check", "idle"):
@@ -316,7 +323,24 @@ class History:
         for b in self.boxes:
             mb = w.server.active_mailboxes.get(b)
             if mb is not None:
-                boxes[b] = {"uids": list(mb.uids), "keys": list(mb.msg_keys),
+                cids, dates = [], []
+                for key in mb.msg_keys:
+                    try:
+                        path = os.path.join(str(w.root / b), str(key))
+                        with open(path, "rb") as f:
+                            head = f.read(400)
+                        mm = re.search(rb"Subject: cid-(\d+)", head)
+                        cids.append(int(mm.group(1)) if mm else -1)
+                        dates.append(int(os.path.getmtime(path)))
+                    except OSError:
+                        cids.append(-2)
+                        dates.append(-2)
+                try:
+                    fileseqs = {k: sorted(v) for k, v in w.folder(b).get_sequences().items()}
+                except Exception as e:  # unreadable .mh_sequences is itself an observation
+                    fileseqs = {"<error>": [repr(e)]}
+                boxes[b] = {"uids": list(mb.uids), "keys": list(mb.msg_keys), "cids": cids, "dates": dates,
+                            "fileseqs": fileseqs,
                             "seqs": {k: sorted(v) for k, v in mb.sequences.items() if v},
                             "next": mb.next_uid, "vv": mb.uid_vv}
         sess = {}
@@ -428,6 +452,8 @@ class History:
             return ("deliver", rng.choice(self.boxes), nn, rng.random() < 0.7, cid, BASE_DATE + 3600 * rng.randint(0, 200))
         if k == "poll":
             return ("poll",)
+        if k == "restart":
+            return ("restart",)
         raise ValueError(k)
 
     def note(self, w, op, obs):
@@ -448,6 +474,12 @@ class History:
             self.idle[s] = True
         elif k == "done":
             self.idle[s] = False
+        elif k == "restart":
+            for i in self.idle:
+                self.idle[i] = False
+                self.selected[i] = None
+                self.gated[i] = 0
+                self.reselect[i] = 0
         if k == "fetch" and last == ("no",):
             self.gated[s] += 1
         elif s:
@@ -650,3 +682,124 @@ def d1_condition(h: History) -> bool:
                 if set(post["boxes"][st["sel"]]["uids"]) - set(pre["boxes"][st["sel"]]["uids"]):
                     return True
     return False
+
+
+# ------------------------------------------------------------------ C02 / C03 oracles on the implementation
+def uid_oracle(h: History):
+    """UID order / UIDNEXT / UIDVALIDITY / no reuse / APPENDUID / COPYUID, from white-box snapshots
+    and from the bytes sent.  Returns [(step, description)]."""
+    bad = []
+    ledger = {}      # (box, vv, uid) -> cid
+    dates = {}       # (box, vv, uid) -> date
+    prev = {}        # box -> snapshot
+    vvs = {}
+    for k, (op, obs) in enumerate(zip(h.ops, h.obs)):
+        pre, post = h.snaps[k]
+        if not post:
+            continue
+        for box, st in post["boxes"].items():
+            u = st["uids"]
+            if any(a >= b for a, b in zip(u, u[1:])):
+                bad.append((k, f"{box}: UIDs not strictly ascending: {u}"))
+            if u and u[-1] >= st["next"]:
+                bad.append((k, f"{box}: UIDNEXT {st['next']} not above the UIDs {u}"))
+            if len(st["keys"]) != len(u):
+                bad.append((k, f"{box}: {len(st['keys'])} message files but {len(u)} UIDs"))
+            p = prev.get(box)
+            if p is not None:
+                if st["vv"] != p["vv"]:
+                    bad.append((k, f"{box}: UIDVALIDITY changed {p['vv']} -> {st['vv']}"))
+                if st["next"] < p["next"]:
+                    bad.append((k, f"{box}: UIDNEXT decreased {p['next']} -> {st['next']}"))
+                for x in u:
+                    if x not in p["uids"] and x < p["next"]:
+                        bad.append((k, f"{box}: UID {x} assigned although UIDNEXT was already {p['next']}"))
+            for x, c, d in zip(u, st["cids"], st["dates"]):
+                key = (box, st["vv"], x)
+                if key in ledger and ledger[key] != c:
+                    bad.append((k, f"{box}: UID {x} named content {ledger[key]} before and names {c} now"))
+                if key in dates and dates[key] != d:
+                    bad.append((k, f"{box}: UID {x} had internal date {dates[key]} and has {d} now"))
+                ledger.setdefault(key, c)
+                dates.setdefault(key, d)
+            prev[box] = st
+            vvs[box] = st["vv"]
+        if len(set(vvs.values())) != len(vvs):
+            bad.append((k, f"two mailboxes share a UIDVALIDITY: {vvs}"))
+        issuer = op[1] if len(op) > 1 and isinstance(op[1], int) else None
+        mine = obs.get(issuer, []) if issuer else []
+        last = mine[-1] if mine else None
+        if op[0] == "append" and last and last[0] == "ok" and last[1] and last[1][0] == "appenduid":
+            box = "inbox" if op[2].lower() == "inbox" else op[2]
+            st = post["boxes"].get(box)
+            if st:
+                _, vv, uid = last[1]
+                if vv != st["vv"] or uid not in st["uids"] or st["cids"][st["uids"].index(uid)] != op[5]:
+                    bad.append((k, f"APPENDUID {vv} {uid} does not name the appended message (cid {op[5]}) in {box}"))
+        if op[0] in ("copy", "move") and pre:
+            code = None
+            for r in mine:
+                if r[0] in ("ok", "moveok") and r[1] and r[1][0] == "copyuid":
+                    code = r[1]
+            if code:
+                src_box = pre["sess"][issuer]["sel"]
+                dbox = "inbox" if op[4].lower() == "inbox" else op[4]
+                sp, dp = pre["boxes"].get(src_box), post["boxes"].get(dbox)
+                if sp and dp:
+                    _, vv, su, du = code
+                    okc = (vv == dp["vv"] and len(su) == len(du) and all(x in dp["uids"] for x in du))
+                    if okc:
+                        # the source list may have grown by a resync inside the command: look the UID up where it is known
+                        src_known = dict(zip(sp["uids"], sp["cids"]))
+                        src_known.update(dict(zip(post["boxes"].get(src_box, sp)["uids"], post["boxes"].get(src_box, sp)["cids"])))
+                        for a, b in zip(su, du):
+                            if a in src_known and src_known[a] != dp["cids"][dp["uids"].index(b)]:
+                                okc = False
+                    if not okc:
+                        bad.append((k, f"COPYUID {vv} {su} {du} does not pair source and destination messages"))
+        if op[0] == "select" and mine:
+            for r in mine:
+                if r[0] == "selinfo":
+                    box = post["sess"][issuer]["sel"]
+                    st = post["boxes"].get(box) if box else None
+                    if st and (r[2] != st["vv"] or r[3] != st["next"]):
+                        bad.append((k, f"SELECT told UIDVALIDITY {r[2]} UIDNEXT {r[3]}, the mailbox has {st['vv']} {st['next']}"))
+                    if st and any(bx == box and u_ >= r[3] for (bx, vv_, u_) in ledger if vv_ == st["vv"]):
+                        bad.append((k, f"SELECT told UIDNEXT {r[3]} although a higher UID was already assigned"))
+    return bad
+
+
+def binding_oracle(h: History):
+    """every body fetch shows the content and internal date bound to that position/UID"""
+    bad = []
+    for k, (op, obs) in enumerate(zip(h.ops, h.obs)):
+        pre, post = h.snaps[k]
+        if not post or op[0] != "fetch":
+            continue
+        issuer = op[1]
+        box = post["sess"][issuer]["sel"]
+        st = post["boxes"].get(box) if box else None
+        if not st:
+            continue
+        for r in obs.get(issuer, []):
+            if r[0] == "body":
+                _, n, uid, cid, date = r
+                if not (1 <= n <= len(st["uids"])):
+                    bad.append((k, f"FETCH {n} outside the mailbox"))
+                    continue
+                if cid != st["cids"][n - 1] or date != st["dates"][n - 1] or (uid is not None and uid != st["uids"][n - 1]):
+                    bad.append((k, f"FETCH {n}: content {cid}/date {date}/UID {uid} but the mailbox holds "
+                                   f"{st['cids'][n - 1]}/{st['dates'][n - 1]}/{st['uids'][n - 1]} there"))
+    return bad
+
+
+def packs_seen(h: History) -> int:
+    n = 0
+    for pre, post in h.snaps:
+        if not pre or not post:
+            continue
+        for box, st in post["boxes"].items():
+            p = pre["boxes"].get(box)
+            if p and p["uids"] == st["uids"] and p["keys"] != st["keys"]:
+                n += 1
+    return n
